@@ -922,6 +922,9 @@ struct UserCal {
     base: CalType,
     working: Vec<chrono::NaiveDateTime>,
     opens_on: Option<chrono::NaiveDateTime>,
+    /// true: the listed days are extra CLOSURES (ad-hoc closing days on top of week mask and
+    /// holiday list) instead of make-up working days
+    closes: bool,
 }
 
 impl DateRoll for UserCal {
@@ -939,6 +942,9 @@ impl DateRoll for UserCal {
             if date < t {
                 return false;
             }
+        }
+        if self.closes {
+            return !self.working.contains(date) && self.is_weekday(date) && !self.is_holiday(date);
         }
         self.working.contains(date) || (self.is_weekday(date) && !self.is_holiday(date))
     }
@@ -1308,27 +1314,40 @@ fn exec_call(c: &CallSpec, obs: &mut Obs) -> Result<(), Fail> {
                     base: cal,
                     working: vec![],
                     opens_on: Some(ts_to_ndt(*t)),
+                    closes: false,
                 };
                 if *settlement || !matches!(func, DateFn::Roll | DateFn::AddDays) {
                     return Ok(());
                 }
-                let ok: Vec<i32> = counts
-                    .iter()
-                    .cloned()
-                    .filter(|c| user.adjustable(&(d + chrono::Duration::days(*c as i64)), &m))
-                    .collect();
+                // (the harness's own membership questions go through the library too: an
+                // unwind there is the library's, not the harness's)
+                let ok: Vec<i32> = match guard(|| {
+                    counts
+                        .iter()
+                        .cloned()
+                        .filter(|c| user.adjustable(&(d + chrono::Duration::days(*c as i64)), &m))
+                        .collect::<Vec<i32>>()
+                }) {
+                    Ok(v) => v,
+                    Err(p) => return Err(panic_to("DateRoll::is_bus_day", p, format!("date {}", d))),
+                };
                 obs.count_n("reach.adjustments_on_a_calendar_with_a_first_trading_day", ok.len() as u64);
                 sweep_dates(&user, d, m, r, false, func, &ok, roll, obs, &panic_to)?;
             } else if makeup.is_empty() {
                 sweep_dates(&cal, d, m, r, *settlement, func, counts, roll, obs, &panic_to)?;
             } else {
+                // (an odd number of listed days: they are make-up working days; an even
+                // number: ad-hoc closures)
                 let user = UserCal {
                     base: cal,
                     working: makeup.iter().map(|t| ts_to_ndt(*t)).collect(),
                     opens_on: None,
+                    closes: makeup.len() % 2 == 0,
                 };
-                if user.working.contains(&d) && !(user.is_weekday(&d) && !user.is_holiday(&d)) {
-                    obs.count("reach.user_calendar_started_on_a_make_up_working_day");
+                match guard(|| user.working.contains(&d) && !(user.is_weekday(&d) && !user.is_holiday(&d))) {
+                    Ok(true) => obs.count("reach.user_calendar_started_on_a_make_up_working_day"),
+                    Ok(false) => {}
+                    Err(p) => return Err(panic_to("DateRoll::is_weekday", p, format!("date {}", d))),
                 }
                 obs.count("reach.user_implementation_of_the_calendar_trait");
                 sweep_dates(&user, d, m, r, *settlement, func, counts, roll, obs, &panic_to)?;
@@ -1997,6 +2016,20 @@ fn emit_calls(seed: u64, tier: Tier, unit: u64, sink: &mut dyn FnMut(Plan) -> bo
             }
         }
         6 => {
+            // refusals (and acceptances) whose variable names are enormous
+            if (unit / 10) % 3 == 0 {
+                for len in [65_535usize, 65_536, 70_000, 300_000] {
+                    let long = "v".repeat(len);
+                    let longu = "é".repeat(len / 2);
+                    for vars in [vec![long.clone()], vec!["a".to_string(), long.clone()], vec![longu.clone(), long.clone()]] {
+                        for nd in [0usize, vars.len(), vars.len() + 1] {
+                            let dual: Vec<Fx> = (0..nd).map(|i| Fx::new(1.0 + i as f64)).collect();
+                            sink(Plan::Call(CallSpec::DualNew { v: Fx::new(1.0), vars: vars.clone(), dual: dual.clone() }));
+                            sink(Plan::Call(CallSpec::Dual2New { v: Fx::new(1.0), vars: vars.clone(), dual: dual.clone(), dual2: vec![Fx::new(0.5)] }));
+                        }
+                    }
+                }
+            }
             // number constructors with every combination of small lengths
             let pool = ["x", "y", "z", "x", ""];
             for nv in 0..=4usize {
